@@ -239,7 +239,7 @@ def run_check(check, tier, seed):
 
     def known_for_case(case_key):
         for k in known:
-            if k["status"] == "finding" and k.get("case") and k["case"] == case_key:
+            if k["status"] == "finding" and case_matches(k, case_key):
                 return k
         return None
 
@@ -387,6 +387,15 @@ def run_check(check, tier, seed):
     if faults:
         return 3
     return 0
+
+
+def case_matches(k, case_key):
+    """a recorded finding names one failing case (`case`) or a family of cases sharing a prefix (`case_prefix`)"""
+    if case_key is None:
+        return False
+    if k.get("case") and k["case"] == case_key:
+        return True
+    return any(case_key.startswith(p) for p in k.get("case_prefix", []))
 
 
 def lock_key(base):
